@@ -184,6 +184,19 @@ def _coord_child(root: str, sources: list[tuple[str, str]], opts: dict[str, Any]
                 time.sleep(0.001)
             if not pend:
                 return orig_rtr(conns, 5)
+            if policy.name.startswith("burst"):
+                # release ALL pending replies, and let the coordinator look only when all of them have arrived
+                for idx, (p, txt) in pend.items():
+                    ctx["released"].add(p)
+                    open(p[:-6] + ".go", "w").close()
+                want = [m.workers[idx].conn for idx in pend]
+                t1 = time.time()
+                while time.time() - t1 < 20:
+                    got = orig_rtr(want, 0.05)
+                    if len(got) == len(want):
+                        break
+                    time.sleep(0.002)
+                return orig_rtr(conns, timeout)
             best = None
             for idx, (p, txt) in pend.items():
                 parts = txt.split()
@@ -318,11 +331,18 @@ def write_program(root: str, shape: str, variant: dict[int, int] | None = None, 
         ret = "str" if variant.get(m) else "int"
         val = "''" if variant.get(m) else "1"
         lines = ["import m%d" % d for d in ds]
+        # re-export the classes of the dependencies' dependencies, and refer to them through the direct dependency only:
+        # m gets INDIRECT dependencies on the modules two levels below
         lines.append("class C%d:\n    x: int = 0" % m)
+        for d in ds:
+            lines.append("from m%d import f%d as f%d_from_%d" % (d, d, d, m))
         lines.append("def f%d() -> %s:\n    return %s" % (m, ret, val))
         for d in ds:
             lines.append("t%d_%d: str = m%d.f%d()" % (m, d, d, d))
             lines.append("def g%d_%d() -> str:\n    return m%d.C%d().x" % (m, d, d, d))
+            for dd in deps[d]:
+                # through the name m<d> re-exports from m<dd>: an indirect dependency of m on m<dd>
+                lines.append("def h%d_%d_%d() -> str:\n    return m%d.f%d_from_%d()" % (m, d, dd, d, dd, d))
         if variant.get(m) == 2:
             lines.append("def broken( -> None: pass")
         if variant.get(m) == 3:
